@@ -157,7 +157,7 @@ def lalrOp (args : List String) : String :=
   match args.mapM String.toInt? with
   | none => "bad-op"
   | some toks =>
-    let (r, n, h) := lalrTrace Lalr.genT (1000 * (toks.length + 2)) (Lalr.init toks) 0 0
+    let (r, n, h) := lalrTrace Lalr.genT (Lalr.driverFuel toks.length) (Lalr.init toks) 0 0
     let tail := " n=" ++ toString n ++ " h=" ++ toString h
     match r with
     | .accept => "accept" ++ tail
